@@ -1,4 +1,4 @@
-(* Driver for the extracted M-SCHEMA differ (SQLite instance).
+(* Driver for the extracted M-SCHEMA differ (argv[1] = sqlite | mysql | postgres).
    Reads the case file the Go harness wrote (one diff call per line, format in
    harness/cmd/diff) and prints the model's canonical change list, in the
    order the model returns it (the order of the Go code). *)
@@ -136,6 +136,12 @@ let skip_of_mask (m : int) (t : tag) : bool =
   m land b <> 0
 
 let () =
+  let dialect = if Array.length Sys.argv > 1 then Sys.argv.(1) else "sqlite" in
+  let schema_diff, table_diff = match dialect with
+    | "sqlite" -> sqlite_schema_diff, sqlite_table_diff
+    | "mysql" -> mysql_schema_diff, mysql_table_diff
+    | "postgres" -> pg_schema_diff, pg_table_diff
+    | d -> failwith ("dialect " ^ d) in
   (try
     while true do
       let line = input_line stdin in
@@ -150,14 +156,14 @@ let () =
         let skip = skip_of_mask mask in
         let obs = match op with
           | "S" ->
-            (match sqlite_schema_diff skip from to_ with
+            (match schema_diff skip from to_ with
              | None -> "err"
              | Some [] -> "[]"
              | Some cs -> String.concat ";" (Stdlib.List.map show_schange cs))
           | "T" ->
             (match from.s_tables, to_.s_tables with
              | t1 :: _, t2 :: _ ->
-               (match sqlite_table_diff skip t1 t2 with
+               (match table_diff skip t1 t2 with
                 | None -> "err"
                 | Some cs -> show_subs cs)
              | _ -> "err")
